@@ -305,6 +305,7 @@ def renumber(recs):
             lines.append(r["b"])
             r["k"] = len(lines)
     recs[0]["lines"] = lines
+    recs[0]["opens"] = sorted({r["w"] for r in recs if r["ev"] == "opened"})
     return recs
 
 
